@@ -803,7 +803,10 @@ func (g *generator) enterNextFinallyFrame() (canContinue bool) {
 			vm.stash = tf.stash
 			vm.privEnv = tf.privEnv
 			vm.pc = int(tf.finallyPos)
-			tf.catchPos = tryPanicMarker
+			// An exception thrown by the finally block replaces the pending return and must reach
+			// the enclosing handlers of the generator like any other exception: this frame is spent
+			// (handleThrow pops it), it must not stop the unwinding.
+			tf.catchPos = -1
 			tf.finallyPos = -1
 			tf.finallyRet = -2 // -1 would cause it to continue after leaveFinally
 			return true
@@ -846,11 +849,6 @@ func (g *generator) step() (res Value, resultType resultType, ex *Exception) {
 		for {
 			ex = vm.runTryInner()
 			if ex != nil {
-				if vm.prg != nil || vm.pc != -2 {
-					// The exception was thrown in the outermost finally block, it never got to leaveFinally
-					// which does popTryFrame()
-					vm.popTryFrame()
-				}
 				return
 			}
 			if !vm.halted() {
